@@ -128,6 +128,10 @@ func cmdCrashChild(args []string) error {
 		vdef[coll] = nv
 		return colls[coll].PutDDoc(context.Background(), "vd", viewDDocVariant(nv))
 	}
+	// a first write gives the driver a CAS to derive caller-chosen CAS values from (as the sequential driver's start marker)
+	if cas0, err := colls["c0"].WriteCas("~start", 0, 0, []byte(`{"start":1}`), 0); err == nil {
+		maxCas = cas0
+	}
 	meta := bucketMeta(b, colls)
 	emit(map[string]any{"k": "meta", "meta": meta, "expbase": x.exp.base})
 	startRefs := map[string]*CasRef{}
